@@ -143,7 +143,7 @@ def check(ctx: Ctx) -> None:
     repo = ctx.repo
     ctx.decides = ("read(n): returned and retained slices are complementary slices of one buffer value, new items are appended, the buffer is written only "
                    "by read, readline consumes only through read, EOF yields the remainder and then ''; readline returns through the first newline, never "
-                   "reads past it and stops at EOF; write() is exactly one send, flush does nothing, close closes the channel iff proxyclose, makefile maps "
+                   "reads past it and stops at EOF; write() is exactly one send, flush does nothing, close closes the channel iff proxyclose and no other method of the file classes closes it, makefile maps "
                    "'r'/'w' to the two classes and forwards proxyclose.  Decided over value terms along all feasible CFG paths (helpers inlined).")
     ctx.not_decided = "equality with file semantics for all call sequences (only stream integrity and the readline shape)."
     check_stream_reassembly(ctx, "C19")
